@@ -16,7 +16,7 @@ RULE = ('event sequences from boot over {ACCEPT/REFUSE of any pending attempt at
         'after every new state 300 s of silent-peer time are appended and leaked connections looked for; close completion at the same instant and as a separate later event; searches from boot and from 6 prefix sessions (pending boot timer, stop / drop with the close still pending, restart on top of it)')
 ASSUMPTIONS = ['simulated Twisted reactor/connector/transport (verif/shims) reproduces Twisted semantics listed in DESIGN.md 2.1',
                'REST requests are atomic events between reactor callbacks']
-SHARD_TIMEOUT = {'quick': 240, 'thorough': 1500}
+SHARD_TIMEOUT = {'quick': 600, 'thorough': 1500}
 
 CFGS = {
     'quick': [10, 30, 40],
@@ -25,7 +25,7 @@ CFGS = {
 DEPTH = {'quick': (3, 8), 'thorough': (4, 11)}
 PARTS = {'quick': 4, 'thorough': 3}
 WALKS = {'quick': (240, 120), 'thorough': (6000, 400)}
-BUDGET = {'quick': 45, 'thorough': 600}
+BUDGET = {'quick': 300, 'thorough': 600}
 
 # prefix-seeded exploration (states a search from boot reaches only at depth 8+): a session under a pending boot
 # timer, a stop / drop whose close has not completed yet, a restart on top of it
@@ -144,6 +144,9 @@ def floors(m, tier):
         unmet.append('fewer than 10 late accepts exercised')
     if c.get('writes_observed', 0) < 100:
         unmet.append('fewer than 100 writes observed')
+    if tier == 'quick' and m['counters'].get('truncated_shards', 0):
+        # the breadth-first part is meant to complete in the quick tier: a search cut by its time box is not 'held'
+        unmet = list(unmet) + ['%d breadth-first shard(s) were cut by their time box' % m['counters']['truncated_shards']]
     return unmet
 
 
